@@ -15,6 +15,9 @@ objs=[f('+')*v('+')*dS]'''),
 m=mesh("triangle"); V=space(m,"DP",2); v=TestFunction(V); f=Coefficient(V)
 md={"quadrature_rule":"custom","quadrature_points":np.array([[0.125],[0.5],[0.625]]),"quadrature_weights":np.array([0.25,0.5,0.25])}
 objs=[f('+')*f('+')*v('+')*dS(metadata=md)]'''),
+    corpus._c("c03_both_sides_coupled_tet", '''
+m=mesh("tetrahedron"); V=space(m,"DP",1); v=TestFunction(V); f=Coefficient(V)
+objs=[f('+')*f('-')*v('-')*dS]'''),
     corpus._c("c03_onesided_tet", '''
 m=mesh("tetrahedron"); V=space(m,"DP",1); f=Coefficient(V); x=SpatialCoordinate(m)
 objs=[f('-')*x[0]('-')*dS]'''),
@@ -103,6 +106,17 @@ def renumbering(v, tier, seed):
                     v.violation(f"c03-renumber:{r['id']}", f"with the '-' cell renumbered no permutation code reproduces the interior-facet integral (case {r['id']}, relative error {k['error']:.3g})",
                                 {"case": r["id"], "code": r["code"], "renumbering": k.get("codes"), "seed": seed + 7919 * rnd})
                     continue
+                for c in k.get("codes", []):
+                    # the code that reproduces the integral must be the one ufcx.h's convention assigns to this pair of numberings
+                    conv = c.get("codes_by_convention")
+                    if conv and len(c["codes_within_tol"]) == 1:
+                        stats["convention_checked"] = stats.get("convention_checked", 0) + 1
+                        okc = c["matching_code"] in conv
+                        v.oblige(okc)
+                        if not okc:
+                            v.violation(f"c03-convention:{r['id']}", f"interior-facet kernel of case {r['id']}: for '-' numbering {c['sigma']} (local facets {c['facets']}) the integral is reproduced by "
+                                        f"permutation code {c['matching_code']}, but the convention of ufcx.h (rotations = N div 2, then reflections = N mod 2) assigns code {conv} to this pair of numberings",
+                                        {"case": r["id"], "code": r["code"], "renumbering": c, "seed": seed + 7919 * rnd})
                 for c in k.get("codes", []):
                     cell = r["code"].split('mesh("')[1].split('"')[0] if 'mesh("' in r["code"] else "?"
                     key = (cell, tuple(c["sigma"]), tuple(c["facets"]))
